@@ -51,7 +51,8 @@ impl GLWEBlindRetriever {
         R: GLWEInfos,
         S: GGSWInfos,
     {
-        module.cmux_tmp_bytes(res, res, selector)
+        // the accumulation step is cmux_assign_neg, which keeps a temporary GLWE besides the cmux scratch
+        module.cmux_assign_neg_tmp_bytes(res, res, selector)
     }
 
     pub fn retrieve<M, R, A, S, BE: Backend>(
